@@ -13,10 +13,11 @@ import c07_build as B
 from c07_obs import (open_deb, drop, pick_how, obs_has, obs_get, obs_md5, obs_scripts, obs_ctl, mutate_result,
                      N_ACCESS, MD5_WAYS, HOWS_SHARED, HOWS_FLAKY, FAULT_KINDS, FAULT_AT, AR_KINDS, AR_NAMED,
                      obs_ar, ar_glance, obs_read_begin, obs_read_end, obs_faulted, trigger_of, forget_trigger,
-                     make_fault, classify, came_out)
+                     make_fault, classify, came_out, obs_close, CLOSE_WAYS)
 
 SPELLINGS = ["plain", "dot", "slash"]
 PARTS = ["control", "data"]
+CLOSES = sorted(CLOSE_WAYS)             # close() / `with` exit / the parts' close(): ordinary steps (DebFileCache: Close)
 HEADS = [0, 1, 2, 3, 7, 100, 511, 512, 1000, 4096, 8191, 8192, 8193]        # bytes read before the other steps
 
 
@@ -177,6 +178,8 @@ def gen_hist(rnd, tab, pkgs, prts, nsteps, stress=0, fdom=None):
       ["rb", o, args, k, out, g]   get_file + read(k): `out` is the get answer of the table
       ["re", o, out, g]            the remainder: head + remainder = the blob of `out`
       ["ar", o, kind, w]           an ArFile-level call naming the member of part w / debian-binary
+      ["close", o, way]            close() / `with` exit / a part's close(); the object is used on afterwards (more often
+                                   while a file of that object is half read: streams obtained BEFORE the close)
       ["fault", o, q, args, enc, out, g, k, kind, dom, exc]   query q (or "re") with the file object armed"""
     qn = sorted({k[2][2] for k in tab[(0, 0)] if k[1] == "has"})
     names = B.gen_names(rnd, set(qn) | set(B.CTRL_NAMES), long_names=bool(stress))
@@ -241,6 +244,10 @@ def gen_hist(rnd, tab, pkgs, prts, nsteps, stress=0, fdom=None):
     for _ in range(nsteps):
         r = rnd.random()
         r2 = rnd.random()
+        if rnd.random() < (0.22 if hand is not None else 0.09):
+            # the object is closed and used on: the reader opens its file again on demand (Close leaves no trace)
+            ops.append(["close", hand[0] if hand is not None and rnd.random() < 0.8 else rnd.choice((1, 2)), rnd.choice(CLOSES)])
+            continue
         if hand is not None and r2 < 0.45:
             if r2 < 0.2:                # an ArFile-level look at the very member the half-read file lives in
                 ops.append(["ar", hand[0], rnd.choice(AR_NAMED + AR_KINDS), hand[1]])
@@ -357,6 +364,12 @@ def run_hist(case, work, drift=None):
                 err = obs_ar(sess.deb[o], kind, member_of(sess.mems[o], w))
                 if err:
                     return "%s: package %d: ArFile-level call %s(%r): %s" % (where, o, kind, member_of(sess.mems[o], w), err)
+                continue
+            if op[0] == "close":
+                _, o, way = op
+                err = obs_close(sess.deb[o], way)
+                if err:
+                    return "%s: package %d: close() [%s] on an object that is used on afterwards: %s" % (where, o, way, err)
                 continue
             if op[0] == "rb":
                 _, o, args, k, out, g = op
@@ -525,6 +538,9 @@ def record_session(rnd, work, given=None):
         for _ in range(rnd.randint(15, 45)):
             r = rnd.random()
             r2 = rnd.random()
+            if rnd.random() < (0.22 if hand is not None else 0.09):
+                calls.append(["close", hand[0] if hand is not None and rnd.random() < 0.8 else rnd.choice((1, 2)), rnd.choice(CLOSES)])
+                continue
             if hand is not None and r2 < 0.45:
                 if r2 < 0.2:
                     calls.append(["ar", hand[0], rnd.choice(AR_NAMED + AR_KINDS), hand[1]])
@@ -654,6 +670,9 @@ def record_session(rnd, work, given=None):
                 _, o, kind, w = cl
                 err = obs_ar(sess.deb[o], kind, member_of(mems[o], w))
                 events.append({"op": "ar", "o": o, "kind": kind, "w": w, "err": err})
+            elif op == "close":
+                _, o, way = cl
+                events.append({"op": "close", "o": o, "w": CLOSE_WAYS[way], "err": obs_close(sess.deb[o], way)})
             elif op == "rb":
                 _, o, p, sp, n, k = cl
                 if sess.hand is not None:
@@ -766,6 +785,9 @@ def corrupt_session(t, how):
         if how == "ar" and e["op"] == "ar" and e["err"] == "":
             e["err"] = "EXC:KeyError"
             return t
+        if how == "close" and e["op"] == "close" and e["err"] == "":
+            e["err"] = "EXC:ValueError"
+            return t
     return None
 
 
@@ -778,7 +800,7 @@ def validate_sessions(ctx, sessions, java_opts=None, with_controls=True):
     sl = [slim(t) for t in sessions]
     ctl = []
     if with_controls:
-        for how in ("blob", "has", "dict", "ctl", "readend", "faultexc", "ar"):
+        for how in ("blob", "has", "dict", "ctl", "readend", "faultexc", "ar", "close"):
             n = 0
             for k, t in enumerate(sl):
                 c = corrupt_session(t, how)
